@@ -343,6 +343,7 @@ type Generation struct {
 // terminate.
 func (g *Generation) close() {
 	g.lock.Lock()
+	verifTrace("gen.close", g, int(g.ID), g.routines, g.closed)
 	if !g.closed {
 		close(g.done)
 		g.closed = true
@@ -357,6 +358,7 @@ func (g *Generation) close() {
 	if r > 0 {
 		<-g.joined
 	}
+	verifTrace("gen.closed", g, int(g.ID))
 }
 
 // Start launches the provided function in a go routine and adds accounting such
@@ -385,16 +387,19 @@ func (g *Generation) Start(fn func(ctx context.Context)) {
 	// such a case, fn should immediately exit because ctx.Err() will return
 	// ErrGenerationEnded.
 	if g.closed {
+		verifTrace("gen.start", g, int(g.ID), false, g.routines)
 		go fn(genCtx{g})
 		return
 	}
 
 	// register that there is one more go routine that's part of this gen.
 	g.routines++
+	verifTrace("gen.start", g, int(g.ID), true, g.routines)
 
 	go func() {
 		fn(genCtx{g})
 		g.lock.Lock()
+		verifTrace("gen.fnexit", g, int(g.ID), g.routines-1, g.closed)
 		// shut down the generation as soon as one function exits.  this is
 		// different from close() in that it doesn't wait for all go routines in
 		// the generation to exit.
@@ -858,6 +863,7 @@ func (cg *ConsumerGroup) nextGeneration(memberID string) (string, error) {
 		gen.close()
 		return memberID, ErrGroupClosed // ErrGroupClosed will trigger leave logic.
 	case cg.next <- &gen:
+		verifTrace("cg.offered", cg, int(gen.ID), gen.MemberID)
 	}
 
 	// wait for generation to complete.  if the CG is closed before the
